@@ -162,11 +162,11 @@ func init() {
 		e.Rep.Rule("complete product style x recv x reverse x src ptr/val x dst ptr/val x error x extra args x named x src local/imported x dst local/imported; " +
 			"non-trivial = accepted cell (each is a distinct signature shape) whose generated signature was compared with the reference builder")
 		e.Rep.Bound("extra_args_max", maxArgs-1)
-		e.Explore(cells, func(o *scen.Outcome) []report.Finding {
+		e.Explore(cells, func(o *scen.Outcome, t *report.Tally) []report.Finding {
 			m := o.Cell.Meta.(c08Meta)
 			want, legal := c08Expect(m, e.WS.PkgPath(o.Cell))
-			e.Rep.AddEvaluations(1)
-			e.Rep.AddValidated(1)
+			t.AddEvaluations(1)
+			t.AddValidated(1)
 			var fs []report.Finding
 			add := func(key, what string) {
 				fs = append(fs, report.Finding{Key: "C08|" + key + "|" + m.feature(), What: what})
@@ -176,8 +176,8 @@ func init() {
 				return fs
 			}
 			if !legal {
-				e.Rep.Family("signature/illegal", false, false)
-				e.Rep.Outcome("rejected-illegal")
+				t.Family("signature/illegal", false, false)
+				t.Outcome("rejected-illegal")
 				if o.Res.Exit == 0 {
 					add("illegal-accepted", "combination documented as illegal was accepted")
 				} else if strings.TrimSpace(o.Res.Stderr) == "" {
@@ -186,7 +186,7 @@ func init() {
 				return fs
 			}
 			if o.Res.Exit != 0 || !o.OutExists {
-				e.Rep.Family("signature/legal", false, false)
+				t.Family("signature/legal", false, false)
 				add("legal-rejected", "documented combination rejected: "+clip(e.scrub(o.Res.Stderr, o.Dir), 300))
 				return fs
 			}
@@ -205,13 +205,13 @@ func init() {
 				add("untyped", "signature could not be type-checked: "+c.FirstError())
 				return fs
 			}
-			e.Rep.Family("signature/legal", true, true)
-			e.Rep.Nontrivial(want.String())
-			e.Rep.Outcome(want.String())
+			t.Family("signature/legal", true, true)
+			t.Nontrivial(want.String())
+			t.Outcome(want.String())
 			if got := fns[0].Sig.String(); got != want.String() {
 				add("sig-mismatch", "expected "+want.String()+"\nobserved "+got)
 			}
-			e.Rep.Sample(map[string]any{"cell": o.Cell.ID, "method": methodLine(o.Cell.Files["setup.go"]), "signature": fns[0].Sig.String()})
+			t.Sample(map[string]any{"cell": o.Cell.ID, "method": methodLine(o.Cell.Files["setup.go"]), "signature": fns[0].Sig.String()})
 			return fs
 		})
 	})
